@@ -20,6 +20,11 @@ func ParseTag(oid OID, data []byte) (*Tag, error) {
 	var referentFound bool
 	var referentType ObjectType
 	var referentTypeFound bool
+	// As in Git itself, the `object` and `type` headers are the start
+	// of the header block. A header with one of these names that
+	// comes after some other header (e.g., after `tagger`) is an
+	// extra header, not the referent or its type.
+	var otherHeaderSeen bool
 	iter, err := NewObjectHeaderIter(oid.String(), data)
 	if err != nil {
 		return nil, err
@@ -29,8 +34,10 @@ func ParseTag(oid OID, data []byte) (*Tag, error) {
 		if err != nil {
 			return nil, err
 		}
-		switch key {
-		case "object":
+		switch {
+		case otherHeaderSeen:
+			// An extra header; ignore it.
+		case key == "object":
 			if referentFound {
 				return nil, fmt.Errorf("multiple referents found in tag %s", oid)
 			}
@@ -39,12 +46,14 @@ func ParseTag(oid OID, data []byte) (*Tag, error) {
 				return nil, fmt.Errorf("malformed object header in tag %s", oid)
 			}
 			referentFound = true
-		case "type":
+		case key == "type":
 			if referentTypeFound {
 				return nil, fmt.Errorf("multiple types found in tag %s", oid)
 			}
 			referentType = ObjectType(value)
 			referentTypeFound = true
+		default:
+			otherHeaderSeen = true
 		}
 	}
 	if !referentFound {
